@@ -28,6 +28,14 @@ func verifDir() string {
 	return "/verif"
 }
 
+// outDir is where evidence and replay files go (VERIF_OUT, default the verif directory).
+func outDir() string {
+	if d := os.Getenv("VERIF_OUT"); d != "" {
+		return d
+	}
+	return verifDir()
+}
+
 type batchOutcome struct {
 	Batch    props.Batch
 	Result   *rig.Result
@@ -570,8 +578,8 @@ func conclude(p *props.Property, id, tier string, seed int64, outs []*batchOutco
 			"verdict":     map[int]string{0: "held on what was observed", 1: "violated", 2: "inconclusive"}[exit],
 		}
 		b, _ := json.MarshalIndent(ev, "", " ")
-		os.MkdirAll(filepath.Join(verifDir(), "evidence"), 0o755)
-		os.WriteFile(filepath.Join(verifDir(), "evidence", id+".json"), append(b, '\n'), 0o644)
+		os.MkdirAll(filepath.Join(outDir(), "evidence"), 0o755)
+		os.WriteFile(filepath.Join(outDir(), "evidence", id+".json"), append(b, '\n'), 0o644)
 	}
 	fmt.Printf("%s %s seed=%d: evaluations=%d distinct_nontrivial=%d violations=%d known=%d inconclusive=%d unclaimed_races=%d wall=%.1fs -> exit %d\n",
 		id, tier, seed, merged.Evaluations, distinct, newVios, knownHits, len(inconcl), len(unclaimed), wall, exit)
@@ -650,7 +658,7 @@ func raceSummary(rep string) string {
 }
 
 func writeReplay(id, tier string, seed int64, v rig.Violation, count int) string {
-	dir := filepath.Join(verifDir(), "replays", id)
+	dir := filepath.Join(outDir(), "replays", id)
 	os.MkdirAll(dir, 0o755)
 	h := sha1.Sum([]byte(v.Sig))
 	path := filepath.Join(dir, fmt.Sprintf("%x.json", h[:6]))
